@@ -1283,3 +1283,11 @@ def m_box_new(ex, st, call):
 @model(r'^<Box<.*> as Drop>::drop$|^<Vec<.*> as Drop>::drop$|^<Rc<.*> as Drop>::drop$')
 def m_drop_noop(ex, st, call):
     return ex.ret(st, call, UNIT)
+
+
+@model(r'^<Box<.*> as AsRef<.*>>::as_ref$|^<Box<.*> as Deref>::deref$|^<Box<.*> as DerefMut>::deref_mut$|^<Box<.*> as AsMut<.*>>::as_mut$')
+def m_box_as_ref(ex, st, call):
+    b = deref(ex, st, call.args[0])
+    if isinstance(b, Agg) and 0 in b.fields and isinstance(b.fields[0], Agg) and isinstance(b.fields[0].fields.get(0), Ref):
+        return ex.ret(st, call, b.fields[0].fields[0])
+    return None
